@@ -1,7 +1,7 @@
 (** C13 -- property theorems only (router / simulator).  Each is closed by short glue from
     lemmas of [Proofs] and followed by [Print Assumptions].  The hop MAC is an arbitrary
     function: nothing below depends on cryptography. *)
-From Sci Require Import Network.Model Network.Spec Network.Proofs Network.Proofs_Sound.
+From Sci Require Import Network.Model Network.Spec Network.Proofs Network.Proofs_Sound Network.Proofs_Complete.
 Local Open Scope N_scope.
 
 (** The simulator reaches a verdict after at most max(1, hops - current hop) AS steps, for
@@ -15,6 +15,16 @@ Theorem sim_terminates :
     /\ ((Nat.max 1 (length (p_hops (k_path pk)) - p_ch (k_path pk)) <= fuel)%nat -> e <> EndFuel).
 Proof. intros. eapply sdk_sim_bound; eauto. Qed.
 Print Assumptions sim_terminates.
+
+(** ... and packets with a one-hop path after at most two AS steps (any topology without
+    interface 0). *)
+Theorem sim_terminates_onehop :
+  forall (key : Type) (mac : key -> N -> N -> N -> N -> N -> N) fuel (t : topology key) ia i pk tr e,
+    wf_topo t = true ->
+    sdk_onehop_sim mac fuel t ia i pk = (tr, e) ->
+    (length tr <= 2)%nat /\ ((2 <= fuel)%nat -> e <> EndFuel).
+Proof. intros. eapply sdk_onehop_bound; eauto. Qed.
+Print Assumptions sim_terminates_onehop.
 
 (** A packet is delivered locally only in the AS its destination address names. *)
 Theorem deliver_only_at_dst :
@@ -109,3 +119,23 @@ Theorem sdk_sound_wrt_ref :
             rtr = fwd_of_steps tr /\ rend = RDelivered (s_ia s) /\ rpk = pk').
 Proof. intros. eapply sdk_sim_sound; eauto. Qed.
 Print Assumptions sdk_sound_wrt_ref.
+
+(** Completeness, one AS step: for paths without PEERING flag whose segments all have at
+    least two hop fields (the SDK refuses single-hop segments by design), whatever the
+    reference router forwards or delivers, the SDK router forwards over the same interface /
+    delivers, leaving the identical packet.  Together with [sdk_sound_wrt_ref_step]: on these
+    packets the two routers agree on every forwarding and delivery decision.  With peering
+    the statement is false: [Findings.sdk_rejects_peering_refuted] (finding
+    C13-peering-unsupported). *)
+Theorem sdk_complete_wrt_ref_step :
+  forall (key : Type) (mac : key -> N -> N -> N -> N -> N -> N) (t : topology key)
+         ia K now i pk,
+    wf_topo t = true -> lens_two (p_lens (k_path pk)) ->
+    sum_nat (p_lens (k_path pk)) = length (p_hops (k_path pk)) ->
+    uses_peering (k_path pk) = false ->
+    (forall e pk', ref_step mac t ia K now i pk = RForward e pk' ->
+                   sdk_route mac t ia K now i pk = (AFwd e, pk'))
+    /\ (forall pk', ref_step mac t ia K now i pk = RDeliver pk' ->
+                    sdk_route mac t ia K now i pk = (ALocal, pk')).
+Proof. intros. apply sdk_step_complete; assumption. Qed.
+Print Assumptions sdk_complete_wrt_ref_step.
